@@ -37,8 +37,8 @@ func c44Jobs(thorough bool, dir string, noPoll map[string]bool) []Job {
 	}
 	if thorough {
 		js = []Job{
-			{Harness: "c44", Name: "H2/changes=2,clients=2", P: Params{Changes: 2, Clients: 2}, Bounds: b012},
-			{Harness: "c44", Name: "H2/changes=1,clients=2", P: Params{Changes: 1, Clients: 2}, Bounds: b012},
+			{Harness: "c44", Name: "H2/changes=2,clients=2", P: Params{Changes: 2, Clients: 2}, Bounds: b012, Shards: 8},
+			{Harness: "c44", Name: "H2/changes=1,clients=2", P: Params{Changes: 1, Clients: 2}, Bounds: b012, Shards: 4},
 			{Harness: "c44", Name: "H3/changes=2,clients=2,peer-gone+write-error", P: Params{Changes: 2, Clients: 2, Gone: true, WriteFail: true}, Bounds: []int{0, 1}, EnvBudget: 1},
 			{Harness: "c44", Name: "H1/changes=4,clients=1", P: Params{Changes: 4, Clients: 1}, Bounds: b012},
 			{Harness: "c44", Name: "H1/changes=3,clients=1", P: Params{Changes: 3, Clients: 1}, Bounds: unb},
@@ -102,6 +102,9 @@ func c46Jobs(thorough bool, dir string, noPoll map[string]bool) []Job {
 		}
 		add(Params{Remote: remote, N: 17, Fail: 1<<3 | 1<<16, Variant: "plain", Cache: remote}, b, 0)
 		js[len(js)-1].Deviation = true // 20 symmetric threads: deviation bounding instead of preemption bounding
+		if thorough {
+			js[len(js)-1].Shards = 8
+		}
 	}
 	for n := 3; n >= 1; n-- {
 		for _, remote := range []bool{false, true} {
